@@ -1,4 +1,4 @@
-#!/bin/sh
+#!/bin/bash
 # usage: seedmatrix.sh [seed-id ...]
 # For every confirmed seeded change under /verif/seeded (or the ones named), and for the
 # revert of every "fix:" commit of /repo, applies the change to a scratch copy of /repo,
